@@ -1086,6 +1086,10 @@ impl Compiler {
                     });
                 }
 
+                // ++/-- work on ToNumber(old value): "5"++ is 6, not "51", and the
+                // postfix result is the number 5
+                self.builder.emit(Op::Plus { dst, src: dst });
+
                 if !update.prefix {
                     // Postfix: save original value
                     let original = self.builder.alloc_register()?;
@@ -1168,6 +1172,9 @@ impl Compiler {
 
                 // Load current value
                 self.emit_get_property(dst, obj_reg, &key_info)?;
+
+                // ++/-- work on ToNumber(old value)
+                self.builder.emit(Op::Plus { dst, src: dst });
 
                 let one = self.builder.alloc_register()?;
                 self.builder.emit(Op::LoadInt { dst: one, value: 1 });
